@@ -362,6 +362,864 @@ theorem nnLine_sound_partial2 {y : YearDecl} {S : SSet} {c : ClassDecl} {l : Lin
   nnLineWith_sound_partial h inst vs is fs
     (opFacts_of (σ := ⟨vs, is, fs⟩) hrest rfl ha hb) hrest.wrap v hrun
 
+/-! ## Round 3: the field wrapper, the builtin table, `/`, `*`, thresholds -/
+
+
+theorem isNeg_zero : F64.isNeg F64.zero = false := rfl
+
+theorem wrap_float {p : Nat} {v w : Val} (hv : v.NN = true) (h : FieldKind.wrap (.float p) v = .inl w) :
+    w.NN = true ∧ w.isNum = true := by
+  cases v with
+  | none =>
+    injection h with h; subst h
+    exact ⟨(NN_float _).2 (F64.roundN_notNeg isNeg_zero p), rfl⟩
+  | float x =>
+    injection h with h; subst h
+    exact ⟨(NN_float _).2 (F64.roundN_notNeg ((NN_float x).1 hv) p), rfl⟩
+  | str s =>
+    revert h
+    unfold FieldKind.wrap
+    dsimp only
+    cases (Val.pyStrip s).isEmpty
+    · intro h; injection h
+    · intro h
+      injection h with h; subst h
+      exact ⟨(NN_float _).2 (F64.roundN_notNeg isNeg_zero p), rfl⟩
+  | bool b => injection h
+  | int i => injection h
+  | enumv e m => injection h
+  | tuple xs => injection h
+  | list xs => injection h
+  | dict ks vs => injection h
+
+theorem wrap_int {v w : Val} (hv : v.NN = true) (h : FieldKind.wrap .int v = .inl w) :
+    w.NN = true ∧ w.isNum = true := by
+  cases v with
+  | none => injection h with h; subst h; exact ⟨rfl, rfl⟩
+  | int i => injection h with h; subst h; exact ⟨hv, rfl⟩
+  | str s =>
+    revert h
+    unfold FieldKind.wrap
+    dsimp only
+    cases (Val.pyStrip s).isEmpty
+    · intro h; injection h
+    · intro h
+      injection h with h; subst h
+      exact ⟨rfl, rfl⟩
+  | bool b => injection h
+  | float x => injection h
+  | enumv e m => injection h
+  | tuple xs => injection h
+  | list xs => injection h
+  | dict ks vs => injection h
+
+theorem wrapFact : WrapFact := by
+  intro k v w hk hv h
+  cases k with
+  | float p => exact wrap_float hv h
+  | int => exact wrap_int hv h
+  | str => cases hk
+  | bool => cases hk
+  | enum e => cases hk
+
+theorem pyLen_fact {x r : Val} (h : Val.pyLen x = .ok r) : r.NN = true ∧ r.isNum = true := by
+  cases x <;> first
+    | (injection h with h; subst h; exact ⟨(NN_int _).2 (Int.natCast_nonneg _), rfl⟩)
+    | (injection h)
+
+theorem map_str_fact {m : R String} {r : Val} (h : m.map Val.str = .ok r) : r.NN = true := by
+  cases m with
+  | error e => cases h
+  | ok s => injection h with h; subst h; rfl
+
+theorem pyList_fact {x r : Val} (h : Val.pyList x = .ok r) :
+    r.NN = true ∧ (x.itemsNN = true → r.itemsNN = true) := by
+  obtain ⟨xs, h1, h2⟩ := bind_ok (show (Val.iterItems x >>= fun xs => pure (Val.list xs)) = .ok r from h)
+  have : Val.list xs = r := by injection h2
+  subst this
+  exact ⟨rfl, fun hx => iterItems_items hx h1⟩
+
+theorem rangeList_NN (n : Int) : (Val.rangeList 0 n).all Val.NN = true := by
+  unfold Val.rangeList
+  rw [List.all_eq_true]
+  intro v hv
+  obtain ⟨k, _, hk⟩ := List.mem_map.1 hv
+  subst hk
+  exact (NN_int _).2 (by omega)
+
+theorem pyRange1_fact {b r : Val} (h : Val.pyRange [b] = .ok r) : r.NN = true ∧ r.itemsNN = true := by
+  have h' : (match Val.asIndexInt b with
+    | some n => if n ≤ 1000000 then (.ok (.list (Val.rangeList 0 n)) : R Val) else .error .unsupported
+    | Option.none => .error .typeError) = .ok r := h
+  cases hb : Val.asIndexInt b with
+  | none => rw [hb] at h'; cases h'
+  | some n =>
+    rw [hb] at h'
+    dsimp only at h'
+    by_cases hn : n ≤ 1000000
+    · rw [if_pos hn] at h'
+      have : Val.list (Val.rangeList 0 n) = r := by injection h'
+      subst this
+      exact ⟨rfl, rangeList_NN n⟩
+    · rw [if_neg hn] at h'; cases h'
+
+theorem pyRange2_fact {a b r : Val} (h : Val.pyRange [a, b] = .ok r) : r.NN = true := by
+  have h' : (match Val.asIndexInt a, Val.asIndexInt b with
+    | some m, some n => if n - m ≤ 1000000 then (.ok (.list (Val.rangeList m n)) : R Val) else .error .unsupported
+    | _, _ => .error .typeError) = .ok r := h
+  cases ha : Val.asIndexInt a with
+  | none => rw [ha] at h'; cases h'
+  | some m =>
+    cases hb : Val.asIndexInt b with
+    | none => rw [ha, hb] at h'; cases h'
+    | some n =>
+      rw [ha, hb] at h'
+      dsimp only at h'
+      by_cases hn : n - m ≤ 1000000
+      · rw [if_pos hn] at h'
+        have : Val.list (Val.rangeList m n) = r := by injection h'
+        subst this; rfl
+      · rw [if_neg hn] at h'; cases h'
+
+theorem floatToInt_fact {f : F64} {o : Option Int} {r : Val} (h : Val.floatToInt f o = .ok r) :
+    ∃ i, o = some i ∧ r = .int i := by
+  cases o with
+  | some i => exact ⟨i, rfl, by injection h with h; exact h.symm⟩
+  | none =>
+    exfalso
+    have h' : (if f.isNaN = true then (.error .valueError : R Val) else .error .overflowError) = .ok r := h
+    by_cases hn : f.isNaN = true
+    · rw [if_pos hn] at h'; cases h'
+    · rw [if_neg hn] at h'; cases h'
+
+theorem pyCeil_fact {x r : Val} (h : Val.pyCeil x = .ok r) : r.isNum = true ∧ (x.NN = true → r.NN = true) := by
+  cases x with
+  | float f =>
+    obtain ⟨i, hi, hr⟩ := floatToInt_fact (show Val.floatToInt f (F64.ceil f) = .ok r from h)
+    subst hr
+    exact ⟨rfl, fun hx => (NN_int _).2 (F64.ceil_notNeg ((NN_float f).1 hx) hi)⟩
+  | int i => injection h with h; subst h; exact ⟨rfl, fun hx => hx⟩
+  | bool b => injection h with h; subst h; exact ⟨rfl, fun _ => by cases b <;> rfl⟩
+  | none => injection h
+  | str s => injection h
+  | enumv e m => injection h
+  | tuple xs => injection h
+  | list xs => injection h
+  | dict ks vs => injection h
+
+theorem pyFloat_fact (hI : IntToFloatNN) {x r : Val} (h : Val.pyFloat x = .ok r) :
+    r.isNum = true ∧ (x.NN = true → x.isNum = true → r.NN = true) := by
+  cases x with
+  | float f => injection h with h; subst h; exact ⟨rfl, fun hx _ => hx⟩
+  | int i =>
+    obtain ⟨f, h1, h2⟩ := bind_ok (show (Val.intToFloat i >>= fun x => pure (Val.float x)) = .ok r from h)
+    have : Val.float f = r := by injection h2
+    subst this
+    exact ⟨rfl, fun hx _ => (NN_float _).2 (hI i f ((NN_int i).1 hx) h1)⟩
+  | bool b =>
+    injection h with h; subst h
+    refine ⟨rfl, fun _ _ => (NN_float _).2 ?_⟩
+    cases b
+    · exact isNeg_zero
+    · exact F64.ofIntD_notNeg (by decide)
+  | str s =>
+    obtain ⟨f, h1, h2⟩ := bind_ok (show (Val.parseFloatStr s >>= fun x => pure (Val.float x)) = .ok r from h)
+    have : Val.float f = r := by injection h2
+    subst this
+    exact ⟨rfl, fun _ hn => by cases hn⟩
+  | none => injection h
+  | enumv e m => injection h
+  | tuple xs => injection h
+  | list xs => injection h
+  | dict ks vs => injection h
+
+theorem extremum_mem (isMax : Bool) : ∀ (xs : List Val) (best r : Val), Val.extremum isMax best xs = .ok r →
+    r = best ∨ r ∈ xs := by
+  intro xs
+  induction xs with
+  | nil => intro best r h; left; injection h with h; exact h.symm
+  | cons x xs ih =>
+    intro best r h
+    obtain ⟨better, _, h2⟩ := bind_ok (show (Val.ordCmp (if isMax then .gt else .lt) x best >>= fun better =>
+      Val.extremum isMax (if better then x else best) xs) = .ok r from h)
+    rcases ih _ r h2 with h3 | h3
+    · cases better
+      · left; simpa using h3
+      · right; rw [h3]; simp
+    · right; exact List.mem_cons_of_mem _ h3
+
+
+def ofNum : Val.Num → Val
+  | .i p => .int p
+  | .f u => .float u
+
+theorem ofNum_num (n : Val.Num) : (ofNum n).num? = some n := by cases n <;> rfl
+
+theorem div_num_congr {a b a' b' : Val} (ha : a.num? = a'.num?) (hb : b.num? = b'.num?) :
+    Val.div a b = Val.div a' b' := by
+  unfold Val.div; rw [ha, hb]
+
+theorem div_nonnum {a b r : Val} (h : Val.div a b = .ok r) (hn : a.num? = none ∨ b.num? = none) : False := by
+  cases a <;> cases b <;> first
+    | ((rcases hn with hn | hn <;> cases hn); done)
+    | (injection h)
+
+theorem div_float_fact (hI : IntToFloatNN) {x y : Val.Num} {r : Val}
+    (h : (x.toF >>= fun fx => y.toF >>= fun fy =>
+      (match F64.div fx fy with
+       | some r => (pure (Val.float r) : R Val)
+       | Option.none => throw .zeroDivisionError)) = .ok r) :
+    r.isNum = true ∧ (NumNN x → NumNN y → r.NN = true) := by
+  obtain ⟨fx, h1, h2⟩ := bind_ok h
+  obtain ⟨fy, h3, h4⟩ := bind_ok h2
+  cases hd : F64.div fx fy with
+  | none => rw [hd] at h4; cases h4
+  | some z =>
+    rw [hd] at h4
+    have : Val.float z = r := by injection h4
+    subst this
+    exact ⟨rfl, fun hx hy => (NN_float _).2 (F64.div_notNeg (toF_NN hI hx h1) (toF_NN hI hy h3) hd)⟩
+
+theorem div_int_fact {p q : Int} {r : Val} (h : Val.div (.int p) (.int q) = .ok r) :
+    r.isNum = true ∧ (0 ≤ p → 0 ≤ q → r.NN = true) := by
+  unfold Val.div at h
+  simp only [Val.num?] at h
+  by_cases hq : q = 0
+  · rw [if_pos hq] at h; cases h
+  · rw [if_neg hq] at h
+    by_cases hp : p = 0
+    · rw [if_pos hp] at h
+      have : Val.float (F64.finite (decide (q < 0)) 0 0) = r := by injection h
+      subst this
+      exact ⟨rfl, fun _ _ => (NN_float _).2 (by simp [F64.isNeg])⟩
+    · rw [if_neg hp] at h
+      generalize hz : F64.ofScaled (decide ((p < 0) ≠ (q < 0))) (p.natAbs * F64.one) q.natAbs = z at h
+      have hr : ∃ w, r = .float w ∧ w = z := by
+        cases z with
+        | inf s => cases h
+        | nan => exact ⟨_, by injection h with h; exact h.symm, rfl⟩
+        | finite n m e => exact ⟨_, by injection h with h; exact h.symm, rfl⟩
+      obtain ⟨w, rfl, rfl⟩ := hr
+      refine ⟨rfl, fun h1 h2 => (NN_float _).2 ?_⟩
+      have hd : decide ((p < 0) ≠ (q < 0)) = false := by
+        have a1 : ¬ p < 0 := by omega
+        have a2 : ¬ q < 0 := by omega
+        simp [a1, a2]
+      rw [← hz, hd]
+      exact F64.isNeg_ofScaled_false _ _
+
+theorem div_fact (hI : IntToFloatNN) {x y r : Val} (h : Val.div x y = .ok r) :
+    r.isNum = true ∧ (x.NN = true → y.NN = true → r.NN = true) := by
+  cases hx : x.num? with
+  | none => exact (div_nonnum h (Or.inl hx)).elim
+  | some nx =>
+    cases hy : y.num? with
+    | none => exact (div_nonnum h (Or.inr hy)).elim
+    | some ny =>
+      rw [div_num_congr (hx.trans (ofNum_num nx).symm) (hy.trans (ofNum_num ny).symm)] at h
+      have key : r.isNum = true ∧ (NumNN nx → NumNN ny → r.NN = true) := by
+        cases nx with
+        | i p =>
+          cases ny with
+          | i q => exact div_int_fact h
+          | f v => exact div_float_fact hI (x := .i p) (y := .f v) h
+        | f u =>
+          cases ny with
+          | i q => exact div_float_fact hI (x := .f u) (y := .i q) h
+          | f v => exact div_float_fact hI (x := .f u) (y := .f v) h
+      exact ⟨key.1, fun h1 h2 => key.2 (num_NN hx h1) (num_NN hy h2)⟩
+
+theorem seqRepeat_nonnum {α : Type} {xs : List α} {n : Int} {mk : List α → Val} {r : Val}
+    (hmk : ∀ l, (mk l).num? = none) (h : Val.mul.seqRepeat xs n mk = .ok r) : r.num? = none := by
+  unfold Val.mul.seqRepeat at h
+  by_cases hc : Val.repeatOk xs n = true
+  · rw [if_pos hc] at h
+    have : mk (Val.repeatList xs n) = r := by injection h
+    subst this; exact hmk _
+  · rw [if_neg hc] at h; cases h
+
+theorem mul_nonnum {a b r : Val} (h : Val.mul a b = .ok r) (hn : a.num? = none ∨ b.num? = none) :
+    r.num? = none := by
+  cases a <;> cases b <;> first
+    | (exfalso; (rcases hn with hn | hn <;> cases hn); done)
+    | (exact seqRepeat_nonnum (fun _ => rfl) h)
+    | (unfold Val.mul at h; simp only [Val.num?, Val.asIndexInt] at h; exact seqRepeat_nonnum (fun _ => rfl) h)
+    | (injection h)
+
+theorem mul_NN (hI : IntToFloatNN) {a b r : Val} (h : Val.mul a b = .ok r) (ha : a.NN = true) (hb : b.NN = true) :
+    r.NN = true := by
+  cases hx : a.num? with
+  | none => exact NN_of_num_none (mul_nonnum h (Or.inl hx))
+  | some x =>
+    cases hy : b.num? with
+    | none => exact NN_of_num_none (mul_nonnum h (Or.inr hy))
+    | some y =>
+      rw [mul_num hx hy] at h
+      unfold numBin at h
+      have nx := num_NN hx ha
+      have ny := num_NN hy hb
+      cases x with
+      | i p =>
+        cases y with
+        | i q =>
+          have : Val.int (p * q) = r := by injection h
+          subst this
+          exact (NN_int _).2 (Int.mul_nonneg nx ny)
+        | f v => exact (floatOp_NN hI (fun _ _ => F64.mul_notNeg) nx ny h).1
+      | f u =>
+        cases y with
+        | i q => exact (floatOp_NN hI (fun _ _ => F64.mul_notNeg) nx ny h).1
+        | f v => exact (floatOp_NN hI (fun _ _ => F64.mul_notNeg) nx ny h).1
+
+
+theorem scan_mem (k : Val) : ∀ (rows : List (ThreshKey × Val)) (r : Val),
+    lookupThreshold.scan k rows = .ok r → ∃ row, row ∈ rows ∧ row.2 = r := by
+  intro rows
+  induction rows with
+  | nil => intro r h; cases h
+  | cons row rest ih =>
+    intro r h
+    obtain ⟨key, v⟩ := row
+    have tail : lookupThreshold.scan k rest = .ok r → ∃ row, row ∈ (key, v) :: rest ∧ row.2 = r := by
+      intro h'
+      obtain ⟨row, hm, hr⟩ := ih r h'
+      exact ⟨row, List.mem_cons_of_mem _ hm, hr⟩
+    have here : (Except.ok v : R Val) = .ok r → ∃ row, row ∈ (key, v) :: rest ∧ row.2 = r := by
+      intro h'
+      exact ⟨(key, v), List.mem_cons_self, by injection h'⟩
+    cases key with
+    | one kk =>
+      unfold lookupThreshold.scan at h
+      split at h
+      · split at h
+        · exact here h
+        · exact tail h
+      · split at h
+        · exact here h
+        · exact tail h
+        · cases h
+    | many ks =>
+      unfold lookupThreshold.scan at h
+      split at h
+      · split at h
+        · exact here h
+        · exact tail h
+      · split at h
+        · exact here h
+        · exact tail h
+
+theorem lookupThreshold_str {ths : List (String × Thresh)} {nm : String} {k : Option Val} {r : Val}
+    (h : lookupThreshold ths (.str nm) k = .ok r) :
+    (∃ v, ths.lookup nm = some (.scalar v) ∧ r = v) ∨
+    (∃ rows row, ths.lookup nm = some (.table rows) ∧ row ∈ rows ∧ row.2 = r) := by
+  unfold lookupThreshold at h
+  dsimp only at h
+  cases hl : ths.lookup nm with
+  | none => rw [hl] at h; cases h
+  | some t =>
+    rw [hl] at h
+    cases t with
+    | scalar v =>
+      left
+      refine ⟨v, rfl, ?_⟩
+      dsimp only at h
+      split at h
+      · injection h with h; exact h.symm
+      · injection h with h; exact h.symm
+      · cases h
+    | table rows =>
+      right
+      dsimp only at h
+      split at h
+      · cases h
+      · cases h
+      · obtain ⟨row, hm, hr⟩ := scan_mem _ rows r h
+        exact ⟨rows, row, rfl, hm, hr⟩
+
+theorem thresh_sound {ths : List (String × Thresh)} {n : Val} {k : Option Val} {r : Val} {a : SVal}
+    (hn : Approx n a) (h : lookupThreshold ths n k = .ok r) : Approx r (threshVal ths a) := by
+  unfold threshVal
+  rw [hn.nb]
+  simp only [Bool.false_eq_true, if_false]
+  cases hk : a.known with
+  | none => exact approx_any r
+  | some c =>
+    have hc := hn.known c hk
+    subst hc
+    cases n with
+    | str nm =>
+      dsimp only
+      rcases lookupThreshold_str h with ⟨v, hl, rfl⟩ | ⟨rows, row, hl, hm, rfl⟩
+      · rw [hl]; exact approx_flags (fun hh => hh) (fun hh => hh) (by simp)
+      · rw [hl]
+        refine approx_flags (fun hh => ?_) (fun hh => ?_) (by simp)
+        · rw [List.all_eq_true] at hh; exact hh row hm
+        · rw [List.all_eq_true] at hh; exact hh row hm
+    | none => exact approx_any r
+    | bool b => exact approx_any r
+    | int i => exact approx_any r
+    | float x => exact approx_any r
+    | enumv e m => exact approx_any r
+    | tuple xs => exact approx_any r
+    | list xs => exact approx_any r
+    | dict ks vs => exact approx_any r
+
+theorem forall2_all_num {vs : List Val} {as : List SVal} (h : List.Forall₂ Approx vs as)
+    (hall : as.all (·.num) = true) : vs.all Val.isNum = true := by
+  induction h with
+  | nil => rfl
+  | cons h1 _ ih =>
+    simp only [List.all_cons, Bool.and_eq_true] at hall ⊢
+    exact ⟨h1.num hall.1, ih hall.2⟩
+
+
+/-- `max` with a not-negative FIRST operand, or a not-negative real constant anywhere, is not negative -/
+def MaxFact : Prop :=
+  ∀ (x : Val) (rest : List Val) (r : Val), Val.extremum true x rest = .ok r →
+    (x.NN = true ∨ ∃ c, c ∈ x :: rest ∧ c.NNreal = true) → r.NN = true
+
+/-- `round(x[, n])` is a number, not negative when `x` is not negative -/
+def RoundFact : Prop :=
+  ∀ (x : Val) (rest : List Val) (r : Val), Val.pyRound (x :: rest) = .ok r →
+    r.isNum = true ∧ (x.NN = true → r.NN = true)
+
+theorem all_mem {p : Val → Bool} {vs : List Val} (h : vs.all p = true) {r : Val} (hr : r ∈ vs) : p r = true := by
+  rw [List.all_eq_true] at h; exact h r hr
+
+theorem minmax1_mem {isMax : Bool} {it r : Val} (h : Val.pyMinMax isMax [it] = .ok r) :
+    ∃ xs, Val.iterItems it = .ok xs ∧ r ∈ xs := by
+  obtain ⟨xs, h1, h2⟩ := bind_ok (show (Val.iterItems it >>= fun xs =>
+    (match xs with
+     | [] => (throw .valueError : R Val)
+     | x :: rest => Val.extremum isMax x rest)) = .ok r from h)
+  refine ⟨xs, h1, ?_⟩
+  cases xs with
+  | nil => cases h2
+  | cons x rest =>
+    rcases extremum_mem isMax rest x r h2 with h3 | h3
+    · rw [h3]; exact List.mem_cons_self
+    · exact List.mem_cons_of_mem _ h3
+
+theorem minmax2_mem {isMax : Bool} {x y r : Val} {rest : List Val}
+    (h : Val.pyMinMax isMax (x :: y :: rest) = .ok r) : r ∈ x :: y :: rest := by
+  rcases extremum_mem isMax (y :: rest) x r h with h3 | h3
+  · rw [h3]; exact List.mem_cons_self
+  · exact List.mem_cons_of_mem _ h3
+
+theorem call_minmax1 {K : SCtx} {isMax : Bool} {v r : Val} {a : SVal} (ha : Approx v a)
+    (h : Val.pyMinMax isMax [v] = .ok r) : Approx r (if a.items = true then SVal.nnOnly else SVal.any) := by
+  split
+  · rename_i hi
+    obtain ⟨xs, h1, h2⟩ := minmax1_mem h
+    exact approx_nnOnly (all_mem (iterItems_items (ha.items hi) h1) h2)
+  · exact approx_any r
+
+theorem realConst_mem {vs : List Val} {as : List SVal} (h : List.Forall₂ Approx vs as)
+    (hany : as.any SVal.isRealConst = true) : ∃ c, c ∈ vs ∧ c.NNreal = true := by
+  induction h with
+  | nil => simp at hany
+  | @cons v a vs' as' h1 _ ih =>
+    simp only [List.any_cons, Bool.or_eq_true] at hany
+    rcases hany with hh | hh
+    · unfold SVal.isRealConst at hh
+      cases hk : a.known with
+      | none => rw [hk] at hh; cases hh
+      | some c =>
+        rw [hk] at hh
+        have := h1.known c hk
+        subst this
+        exact ⟨v, List.mem_cons_self, hh⟩
+    · obtain ⟨c, hc, hr⟩ := ih hh
+      exact ⟨c, List.mem_cons_of_mem _ hc, hr⟩
+
+theorem call_sound (hI : IntToFloatNN) (hmax : MaxFact) (hround : RoundFact) {K : SCtx} (ht : K.trustSum = false) :
+    ∀ (f : Builtin) (vs : List Val) (as : List SVal) (r : Val), List.Forall₂ Approx vs as →
+      applyBuiltin f vs = .ok r → Approx r (callFlags K f as) := by
+  intro f vs as r hvs h
+  cases hvs with
+  | nil => cases f <;> first | exact approx_any r | exact approx_nnOnly (by injection h with h; subst h; rfl)
+  | @cons v a vs' as' h1 t =>
+    cases t with
+    | nil =>
+      cases f with
+      | sum =>
+        show Approx r (if (a.items && K.trustSum) = true then SVal.numNN else SVal.any)
+        rw [ht]; simp only [Bool.and_false, Bool.false_eq_true, if_false]; exact approx_any r
+      | min => exact call_minmax1 (K := K) h1 h
+      | max => exact call_minmax1 (K := K) h1 h
+      | float =>
+        obtain ⟨p, q⟩ := pyFloat_fact hI (show Val.pyFloat v = .ok r from h)
+        refine approx_flags (fun hh => ?_) (fun _ => p) (by simp)
+        simp only [Bool.and_eq_true] at hh
+        exact q (h1.nn hh.1) (h1.num hh.2)
+      | str => exact approx_nnOnly (map_str_fact (show (Val.pyStr v).map Val.str = .ok r from h))
+      | len =>
+        obtain ⟨p, q⟩ := pyLen_fact (show Val.pyLen v = .ok r from h)
+        exact approx_numNN p q
+      | round =>
+        obtain ⟨p, q⟩ := hround v [] r h
+        exact approx_flags (fun hh => q (h1.nn hh)) (fun _ => p) (by simp)
+      | ceil =>
+        obtain ⟨p, q⟩ := pyCeil_fact (show Val.pyCeil v = .ok r from h)
+        exact approx_flags (fun hh => q (h1.nn hh)) (fun _ => p) (by simp)
+      | list =>
+        obtain ⟨p, q⟩ := pyList_fact (show Val.pyList v = .ok r from h)
+        exact approx_flags (fun _ => p) (by simp) (fun hh => q (h1.items hh))
+      | range =>
+        obtain ⟨p, q⟩ := pyRange1_fact h
+        exact approx_flags (fun _ => p) (by simp) (fun _ => q)
+    | @cons v2 a2 vs2 as2 h2 t2 =>
+      cases f with
+      | sum => exact approx_any r
+      | min =>
+        have hm := minmax2_mem h
+        have hall : List.Forall₂ Approx (v :: v2 :: vs2) (a :: a2 :: as2) := .cons h1 (.cons h2 t2)
+        exact approx_flags (fun hh => all_mem (forall2_all_nn hall hh) hm)
+          (fun hh => all_mem (forall2_all_num hall hh) hm) (by simp)
+      | max =>
+        have hm := minmax2_mem h
+        have hall : List.Forall₂ Approx (v :: v2 :: vs2) (a :: a2 :: as2) := .cons h1 (.cons h2 t2)
+        refine approx_flags (fun hh => ?_) (fun hh => all_mem (forall2_all_num hall hh) hm) (by simp)
+        simp only [Bool.or_eq_true] at hh
+        refine hmax v (v2 :: vs2) r h ?_
+        rcases hh with hh | hh
+        · exact Or.inl (h1.nn hh)
+        · exact Or.inr (realConst_mem hall hh)
+      | float => exact approx_any r
+      | str => exact approx_nnOnly (by injection h)
+      | len => exact approx_any r
+      | round =>
+        obtain ⟨p, q⟩ := hround v (v2 :: vs2) r h
+        exact approx_flags (fun hh => q (h1.nn hh)) (fun _ => p) (by simp)
+      | ceil => exact approx_any r
+      | list => exact approx_any r
+      | range =>
+        cases t2 with
+        | nil => exact approx_flags (fun _ => pyRange2_fact h) (by simp) (by simp)
+        | cons h3 t3 => exact approx_any r
+
+
+/-! ### the NaN-safe `max` rule -/
+
+def numCmp (op : Val.OrdOp) (p q : Option Val.Num) : R Bool :=
+  match p, q with
+  | some x, some y =>
+    (match Val.cmpNum x y with
+     | some o => .ok (op.holds o)
+     | Option.none => .ok false)
+  | _, _ => .error .typeError
+
+def NumReal : Val.Num → Prop
+  | .i a => 0 ≤ a
+  | .f x => F64.isNeg x = false ∧ x.isNaN = false
+
+theorem ordCmp_num {op : Val.OrdOp} {x b : Val} (hx : x.isNum = true) :
+    Val.ordCmp op x b = numCmp op x.num? b.num? := by
+  cases x <;> first | (cases hx; done) | (cases b <;> rfl)
+
+theorem NN_of_not_isNum {x : Val} (h : x.isNum = false) : x.NN = true := by
+  cases x <;> first | rfl | cases h
+
+theorem NN_of_num {b : Val} {q : Val.Num} (h : b.num? = some q) (hq : NumNN q) : b.NN = true := by
+  cases b <;> first
+    | (cases h; done)
+    | rfl
+    | (injection h with h; subst h; exact (NN_int _).2 hq)
+    | (injection h with h; subst h; exact (NN_float _).2 hq)
+
+theorem one_pos_int : (0 : Int) < ((F64.one : Nat) : Int) := by
+  exact_mod_cast F64.one_pos
+
+theorem isNeg_signed {n : Bool} {m e : Nat} (h : F64.isNeg (F64.finite n m e) = true) :
+    F64.signed n (m * 2 ^ e) < 0 := by
+  simp only [F64.isNeg, Bool.and_eq_true, decide_eq_true_eq] at h
+  rw [F64.signed_lt_zero]
+  exact ⟨h.1, Nat.mul_pos (Nat.pos_of_ne_zero h.2) (Nat.two_pow_pos _)⟩
+
+theorem notNeg_of_signed {n : Bool} {m e : Nat} (h : 0 ≤ F64.signed n (m * 2 ^ e)) :
+    F64.isNeg (F64.finite n m e) = false := by
+  cases hn : F64.isNeg (F64.finite n m e) with
+  | false => rfl
+  | true => have := isNeg_signed hn; omega
+
+theorem cmpNum_gt_NN {p q : Val.Num} (h : Val.cmpNum p q = some .gt) (hq : NumNN q) : NumNN p := by
+  cases p with
+  | i a =>
+    cases q with
+    | i b =>
+      have h' : some (compare a b) = some Ordering.gt := h
+      injection h' with h'
+      rw [Int.compare_eq_gt] at h'
+      have hb : 0 ≤ b := hq
+      show 0 ≤ a
+      omega
+    | f y =>
+      have h' : (F64.cmpInt y a).map Ordering.swap = some Ordering.gt := h
+      have hy : F64.isNeg y = false := hq
+      show 0 ≤ a
+      cases y with
+      | nan => cases h'
+      | inf n =>
+        cases n with
+        | true => cases hy
+        | false => cases h'
+      | finite n m e =>
+        have h2 : (compare (F64.signed n (m * 2 ^ e)) (a * ((F64.one : Nat) : Int))).swap = Ordering.gt := by
+          injection h'
+        have h3 : compare (F64.signed n (m * 2 ^ e)) (a * ((F64.one : Nat) : Int)) = Ordering.lt := by
+          cases hc : compare (F64.signed n (m * 2 ^ e)) (a * ((F64.one : Nat) : Int)) <;> rw [hc] at h2 <;>
+            first | rfl | cases h2
+        rw [Int.compare_eq_lt] at h3
+        have hs := F64.signed_nonneg_of_notNeg hy (2 ^ e)
+        by_contra hneg
+        have ha : a ≤ 0 := by omega
+        have := Int.mul_le_mul_of_nonneg_right ha (Int.le_of_lt one_pos_int)
+        rw [Int.zero_mul] at this
+        generalize a * ((F64.one : Nat) : Int) = t at *
+        omega
+  | f x =>
+    show F64.isNeg x = false
+    cases q with
+    | i b =>
+      have h' : F64.cmpInt x b = some Ordering.gt := h
+      have hb : 0 ≤ b := hq
+      cases x with
+      | nan => cases h'
+      | inf n =>
+        cases n with
+        | true => cases h'
+        | false => rfl
+      | finite n m e =>
+        have h2 : compare (F64.signed n (m * 2 ^ e)) (b * ((F64.one : Nat) : Int)) = Ordering.gt := by
+          injection h'
+        rw [Int.compare_eq_gt] at h2
+        have ht : 0 ≤ b * ((F64.one : Nat) : Int) := Int.mul_nonneg hb (Int.le_of_lt one_pos_int)
+        apply notNeg_of_signed
+        generalize b * ((F64.one : Nat) : Int) = t at *
+        omega
+    | f y =>
+      have hy : F64.isNeg y = false := hq
+      have h' : (if F64.lt x y = true then some Ordering.lt else if F64.lt y x = true then some Ordering.gt
+        else if F64.eq x y = true then some Ordering.eq else Option.none) = some Ordering.gt := h
+      by_cases h1 : F64.lt x y = true
+      · rw [if_pos h1] at h'; cases h'
+      · rw [if_neg h1] at h'
+        by_cases h2 : F64.lt y x = true
+        · exact F64.notNeg_of_lt hy h2
+        · rw [if_neg h2] at h'
+          by_cases h3 : F64.eq x y = true
+          · rw [if_pos h3] at h'; cases h'
+          · rw [if_neg h3] at h'; cases h'
+
+theorem gt_NN {x b : Val} (h : Val.ordCmp .gt x b = .ok true) (hb : b.NN = true) : x.NN = true := by
+  cases hx : x.isNum with
+  | false => exact NN_of_not_isNum hx
+  | true =>
+    rw [ordCmp_num hx] at h
+    obtain ⟨p, hp⟩ := isNum_num hx
+    cases hq : b.num? with
+    | none => rw [hp, hq] at h; cases h
+    | some q =>
+      rw [hp, hq] at h
+      unfold numCmp at h
+      dsimp only at h
+      cases hc : Val.cmpNum p q with
+      | none => rw [hc] at h; cases h
+      | some o =>
+        rw [hc] at h
+        have ho : o = .gt := by
+          cases o <;> first | rfl | (exfalso; cases h)
+        subst ho
+        exact NN_of_num hp (cmpNum_gt_NN hc (num_NN hq hb))
+
+theorem max_inv : ∀ (rest : List Val) (best r : Val), Val.extremum true best rest = .ok r →
+    best.NN = true → r.NN = true := by
+  intro rest
+  induction rest with
+  | nil => intro best r h hb; injection h with h; subst h; exact hb
+  | cons x xs ih =>
+    intro best r h hb
+    obtain ⟨better, h1, h2⟩ := bind_ok (show (Val.ordCmp .gt x best >>= fun better =>
+      Val.extremum true (if better then x else best) xs) = .ok r from h)
+    cases better with
+    | true => exact ih x r h2 (gt_NN h1 hb)
+    | false => exact ih best r h2 hb
+
+
+theorem cmpNum_notgt {p q : Val.Num} (hp : NumReal p)
+    (h : (match Val.cmpNum p q with
+      | some o => Val.OrdOp.holds .gt o
+      | Option.none => false) = false) : NumNN q := by
+  cases p with
+  | i a =>
+    have ha : 0 ≤ a := hp
+    cases q with
+    | i b =>
+      show 0 ≤ b
+      have h' : Val.OrdOp.holds .gt (compare a b) = false := h
+      by_contra hneg
+      have : compare a b = Ordering.gt := by rw [Int.compare_eq_gt]; omega
+      rw [this] at h'; cases h'
+    | f y =>
+      show F64.isNeg y = false
+      have h' : (match (F64.cmpInt y a).map Ordering.swap with
+        | some o => Val.OrdOp.holds .gt o
+        | Option.none => false) = false := h
+      cases y with
+      | nan => rfl
+      | inf n =>
+        cases n with
+        | false => rfl
+        | true => cases h'
+      | finite n m e =>
+        apply notNeg_of_signed
+        by_contra hneg
+        have hlt : compare (F64.signed n (m * 2 ^ e)) (a * ((F64.one : Nat) : Int)) = Ordering.lt := by
+          rw [Int.compare_eq_lt]
+          have ht : 0 ≤ a * ((F64.one : Nat) : Int) := Int.mul_nonneg ha (Int.le_of_lt one_pos_int)
+          generalize a * ((F64.one : Nat) : Int) = t at *
+          omega
+        have h2 : (match (some (compare (F64.signed n (m * 2 ^ e)) (a * ((F64.one : Nat) : Int)))).map Ordering.swap with
+          | some o => Val.OrdOp.holds .gt o
+          | Option.none => false) = false := h'
+        rw [hlt] at h2; cases h2
+  | f x =>
+    obtain ⟨hx, hxn⟩ : F64.isNeg x = false ∧ x.isNaN = false := hp
+    cases q with
+    | i b =>
+      show 0 ≤ b
+      have h' : (match F64.cmpInt x b with
+        | some o => Val.OrdOp.holds .gt o
+        | Option.none => false) = false := h
+      cases x with
+      | nan => cases hxn
+      | inf n =>
+        cases n with
+        | true => cases hx
+        | false => cases h'
+      | finite n m e =>
+        by_contra hneg
+        have hs := F64.signed_nonneg_of_notNeg hx (2 ^ e)
+        have hgt : compare (F64.signed n (m * 2 ^ e)) (b * ((F64.one : Nat) : Int)) = Ordering.gt := by
+          rw [Int.compare_eq_gt]
+          have hb : b ≤ -1 := by omega
+          have := Int.mul_le_mul_of_nonneg_right hb (Int.le_of_lt one_pos_int)
+          have h1 := one_pos_int
+          generalize b * ((F64.one : Nat) : Int) = t at *
+          generalize ((F64.one : Nat) : Int) = o at *
+          omega
+        have h2 : (match some (compare (F64.signed n (m * 2 ^ e)) (b * ((F64.one : Nat) : Int))) with
+          | some o => Val.OrdOp.holds .gt o
+          | Option.none => false) = false := h'
+        rw [hgt] at h2; cases h2
+    | f y =>
+      show F64.isNeg y = false
+      have h' : (match (if F64.lt x y = true then some Ordering.lt else if F64.lt y x = true then some Ordering.gt
+        else if F64.eq x y = true then some Ordering.eq else Option.none) with
+        | some o => Val.OrdOp.holds .gt o
+        | Option.none => false) = false := h
+      by_cases h1 : F64.lt x y = true
+      · exact F64.notNeg_of_lt hx h1
+      · cases hy : F64.isNeg y with
+        | false => rfl
+        | true =>
+          have h2 := F64.lt_of_isNeg_notNeg hy hx hxn
+          rw [if_neg h1, if_pos h2] at h'
+          cases h'
+
+theorem NNreal_real {c : Val} (hc : c.NNreal = true) : c.isNum = true ∧ c.NN = true ∧
+    ∀ p, c.num? = some p → NumReal p := by
+  cases c with
+  | bool b => exact ⟨rfl, rfl, fun p hp => by injection hp with hp; subst hp; cases b <;> simp [NumReal]⟩
+  | int i =>
+    exact ⟨rfl, hc, fun p hp => by injection hp with hp; subst hp; exact (NN_int i).1 hc⟩
+  | float x =>
+    simp only [Val.NNreal, Bool.and_eq_true, Bool.not_eq_true'] at hc
+    have h1 : F64.isNeg x = false := by rw [← F64.lt_zero_eq]; exact hc.1
+    exact ⟨rfl, (NN_float x).2 h1, fun p hp => by injection hp with hp; subst hp; exact ⟨h1, hc.2⟩⟩
+  | none => cases hc
+  | str s => cases hc
+  | enumv e m => cases hc
+  | tuple xs => cases hc
+  | list xs => cases hc
+  | dict ks vs => cases hc
+
+theorem notgt_NN {c b : Val} (hc : c.NNreal = true) (h : Val.ordCmp .gt c b = .ok false) : b.NN = true := by
+  obtain ⟨hnum, _, hreal⟩ := NNreal_real hc
+  rw [ordCmp_num hnum] at h
+  obtain ⟨p, hp⟩ := isNum_num hnum
+  cases hq : b.num? with
+  | none => rw [hp, hq] at h; cases h
+  | some q =>
+    rw [hp, hq] at h
+    unfold numCmp at h
+    dsimp only at h
+    refine NN_of_num hq (cmpNum_notgt (hreal p hp) ?_)
+    cases hcm : Val.cmpNum p q with
+    | none => rfl
+    | some o =>
+      rw [hcm] at h
+      injection h with h
+
+theorem max_const : ∀ (rest : List Val) (best r : Val), Val.extremum true best rest = .ok r →
+    (∃ c, c ∈ rest ∧ c.NNreal = true) → r.NN = true := by
+  intro rest
+  induction rest with
+  | nil => intro best r h hc; obtain ⟨c, hm, _⟩ := hc; cases hm
+  | cons x xs ih =>
+    intro best r h hc
+    obtain ⟨better, h1, h2⟩ := bind_ok (show (Val.ordCmp .gt x best >>= fun better =>
+      Val.extremum true (if better then x else best) xs) = .ok r from h)
+    obtain ⟨c, hm, hcr⟩ := hc
+    rcases List.mem_cons.1 hm with hx | hx
+    · subst hx
+      cases better with
+      | true => exact max_inv xs c r h2 (NNreal_real hcr).2.1
+      | false => exact max_inv xs best r h2 (notgt_NN hcr h1)
+    · exact ih _ r h2 ⟨c, hx, hcr⟩
+
+theorem maxFact : MaxFact := by
+  intro x rest r h hyp
+  rcases hyp with hx | ⟨c, hm, hc⟩
+  · exact max_inv rest x r h hx
+  · rcases List.mem_cons.1 hm with hx | hx
+    · subst hx; exact max_inv rest c r h (NNreal_real hc).2.1
+    · exact max_const rest x r h ⟨c, hx, hc⟩
+
+
+/-- The closed facts that are STILL assumed after round 3 (each a statement about total functions of the model, no
+stores): `float(int)` of a not-negative int (`IntToFloatNN`, see there), `round` (`RoundFact`), and the two key-string facts (`fstr`: the pattern `prefix{…}suffix` has the claimed class / line codes;
+`key`: when `readKey` answers "not negative" the run-time key is in the set). -/
+structure RestFacts3 (K : SCtx) (ctx : Ctx) : Prop where
+  intToFloat : IntToFloatNN
+  roundFact : RoundFact
+  fstr : ∀ vs as s, List.Forall₂ Approx vs as → fmtAll vs = .ok s → ∀ cl, fstrKey as = some cl → IsKey (.str s) cl
+  key : ∀ k a n, Approx k a → qualify ctx k = .ok n → (readKey K a).nn = true → keyIn K.S n = true
+
+theorem restFacts_of {K : SCtx} {ctx : Ctx} (hths : ctx.thresholds = K.ths) (ht : K.trustSum = false)
+    (h3 : RestFacts3 K ctx) : RestFacts K ctx where
+  intToFloat := h3.intToFloat
+  mulNN := fun x y r h a b => mul_NN h3.intToFloat h a b
+  div := fun x y r h => div_fact h3.intToFloat h
+  call := call_sound h3.intToFloat maxFact h3.roundFact ht
+  fstr := h3.fstr
+  thresh := fun n k r a hn h => by rw [hths] at h; exact thresh_sound hn h
+  key := h3.key
+  wrap := wrapFact
+
+/-- **Soundness of the sign analysis (`sum` unknown), round 3.**  As `nnLine_sound_partial2`, with the field wrapper,
+the builtin table (`min`, `max` (`maxFact`: the NaN-safe rule), `float`, `ceil`, `len`, `list`, `range`, `str`; `round` up to
+`RoundFact`), `/`, `*` and the thresholds proved; what is still assumed is `RestFacts3`. -/
+theorem nnLine_sound_partial3 {y : YearDecl} {S : SSet} {c : ClassDecl} {l : LineDecl}
+    (h : nnLine y S c l = true) (inst : Option String)
+    (vs : String → Option Val) (is : String → InpRes Val) (fs : String → Bool)
+    (h3 : RestFacts3 (mkK false y S c) { year := y, form := c.name, inst := inst, thresholds := c.thresholds })
+    (ha : ∀ k v, is k = .ok v → Val.NN v = true)
+    (hb : ∀ k v, vs k = some v → keyIn S k = true → Val.NN v = true ∧ Val.isNum v = true)
+    (v : Val) (hrun : run vs is fs (evalLine y c inst l) = .val v) :
+    Val.NN v = true ∧ Val.isNum v = true :=
+  nnLine_sound_partial2 h inst vs is fs (restFacts_of rfl rfl h3) ha hb v hrun
+
 end HabuVerif.Sign
 
 section AxiomCheck2
@@ -376,4 +1234,12 @@ open HabuVerif.Sign
 #print axioms getItem_items
 #print axioms opFacts_of
 #print axioms nnLine_sound_partial2
+#print axioms wrapFact
+#print axioms maxFact
+#print axioms call_sound
+#print axioms div_fact
+#print axioms mul_NN
+#print axioms thresh_sound
+#print axioms restFacts_of
+#print axioms nnLine_sound_partial3
 end AxiomCheck2
